@@ -381,4 +381,30 @@ def c12_tables(tier):
                 if isinstance(sub, ast.Attribute) and sub.attr == "_comments" and isinstance(sub.ctx, ast.Store):
                     rebinding.append(node.name)
     out.append(rec("C12/parser-reuse", "_comments", "comment-buffer-never-rebound-after-construction", not rebinding, rebinding))
+    # two workers of the same class share no mutable state: every dict / list / set reachable from a fresh instance's
+    # attributes (its caches, buffers, helper objects) is its own object, and classes declare no mutable attribute
+    import mappyfile.parser as _p, mappyfile.transformer as _t, mappyfile.pprint as _pp, mappyfile.validator as _v, mappyfile.quoter as _q
+    makers = {"Parser": lambda: _p.Parser(include_comments=True), "MapfileToDict": lambda: _t.MapfileToDict(), "MapfileTransformer": lambda: _t.MapfileTransformer(),
+              "PrettyPrinter": lambda: _pp.PrettyPrinter(), "Validator": lambda: _v.Validator(), "Quoter": lambda: _q.Quoter()}
+
+    def mutables(obj, depth=0, seen=None):
+        seen = seen if seen is not None else set()
+        res = []
+        attrs = {}
+        for klass in type(obj).__mro__:
+            if klass.__module__.startswith("mappyfile"):
+                attrs.update({k: v for k, v in vars(klass).items() if not callable(v) and not isinstance(v, (classmethod, staticmethod, property)) and not k.startswith("__")})
+        attrs.update(getattr(obj, "__dict__", {}))
+        for k, v in attrs.items():
+            if isinstance(v, (dict, list, set)):
+                res.append((k, id(v)))
+            elif depth < 1 and type(v).__module__.startswith("mappyfile") and id(v) not in seen:
+                seen.add(id(v))
+                res += [(f"{k}.{kk}", i) for kk, i in mutables(v, depth + 1, seen)]
+        return res
+    for name, mk in makers.items():
+        oa, ob = mk(), mk()          # both alive while ids are compared
+        a, b = mutables(oa), mutables(ob)
+        shared = sorted({k for k, i in a} & {k2 for k2, i2 in b if any(i2 == i for kk, i in a if kk == k2)})
+        out.append(rec("C12/instances", name, "two-fresh-instances-share-no-mutable-object", not shared, shared))
     return out
